@@ -19,14 +19,7 @@ def run(ctx):
     A = ctx.A
     V = SPEC["varint"]
     ctx.rule("C14-R1", "varint size tables == RFC 9000 §16")
-    f = A.fn("wtransport_proto::varint::VarInt::size")
-    got = []
-    for p in nonpanic(walk(f)):
-        ub = [intervals.cval(a[3]) for a in p.atoms if a[0] == "cmp" and a[1] == "Le"]
-        v = const_val(p.leaf[1])
-        if ub and isinstance(v, int):
-            got.append([min(ub), v])
-    ctx.check("C14-R1", "VarInt::size thresholds", sorted(got) == sorted(V["size_thresholds"]), "VarInt::size thresholds %s, RFC 9000 §16: %s" % (sorted(got), V["size_thresholds"]), where(f))
+    shared.varint_size_table(ctx, "C14-R1")
     f = A.fn("wtransport_proto::varint::VarInt::parse_size")
     got = {}
     for p in nonpanic(walk(f)):
